@@ -24,6 +24,7 @@ RULE = (
     "formulas evaluated on totals of the generated arrays. End-to-end component: brute-force pair totals of generated catalogs feed the "
     "same formulas. Non-trivial: every present term non-zero in >=1 bin and the normalised terms pairwise different in that bin "
     "(so that swapping terms changes the answer); distinct = case digest."
+    ' Extensions: CorrFunc objects also as restored from HDF5, unpickled, fully sliced or deep-copied before sampling; end-to-end cases include library-derived centres.'
 )
 ASSUMPTIONS = [
     "Landy-Szalay with rr but without dr is not defined by the statement: not judged (class ls_without_dr)",
